@@ -52,3 +52,25 @@ add('C16', 'property-based round-trip + rejection testing of the codec, bit I/O 
     'codec error or round-trip; bit and dictionary writers/readers are checked as mutual inverses incl. overflow, '
     'truncation (every prefix) and trailing data; in-memory database save/reopen.',
     TRUST)
+
+add('C12', 'finite enumeration of small functions + property-based differential testing of three representations against definitions',
+    'All functions with n<=2,m<=2 and n=3,m=1 (thorough) through 4-5 representations and every protocol query/argument, '
+    'compared with definitions computed from the raw table and pairwise; sampled larger functions, netlist circuits, '
+    'models with don\'t-cares, integer wrappers and index utilities.',
+    TRUST + ' "Monotone" is taken in the documented column-order sense.')
+add('C19', 'property-based testing against reference bookkeeping / cofactor / independently synthesised equivalent replacements',
+    'rename / replace_inputs / remove_gate on generated circuits with blocks checked against a reference renaming of the '
+    'snapshot, the reference cofactor, and the users relation; replace_subcircuit driven with generated cut-bounded cones '
+    'and DNF / Reed-Muller replacements, valid requests must succeed, faulty ones raise a CircuitError or keep the function.',
+    TRUST)
+add('C10', 'property-based testing against an own reference implementation of the documented composition',
+    'Base + 1-3 attached circuits through all seven composition entry points, both directions, internal / repeated / '
+    'partial connectors, names and prefixes; inputs, outputs, label set, per-output truth table, rejections, attached '
+    'circuit immutability, well-formedness and block extraction compared with the reference model.',
+    TRUST + ' One attached INPUT paired with several base inputs is left out (documentation is silent).')
+add('C02', 'stateful property-based testing (Hypothesis rule-based state machine) with a structural invariant after every step',
+    'Histories of all public mutators (19 rules, valid and deliberately invalid arguments, label re-use) on a pool of '
+    'circuits; each call on a deep copy adopted only on normal return; full well-formedness invariant incl. copy '
+    'independence and evaluator agreement after every adopted step; failing histories shrink as one value and replay '
+    'from the operation log without Hypothesis.',
+    TRUST)
